@@ -16,7 +16,7 @@ def build(ctx):
 
 
 def bounded(ctx):
-    common.suites(ctx, ['li', 'pseudo', 'dist', 'far', 'mix'], {'li', 'decode', 'target'})
+    common.suites(ctx, ['li', 'pseudo', 'dist', 'far', 'mix', 'rand'], {'li', 'decode', 'target'})
 
 
 def explanation(ctx):
